@@ -2,4 +2,5 @@
 REGISTRY = {
     "C13": ["vf.harness.c13"],
     "C14": ["vf.harness.c14"],
+    "C15": ["vf.harness.c15"],
 }
